@@ -569,7 +569,12 @@ func RunCase(c *mon.Case, prop string) {
 					what = "already supplied"
 				}
 				fail("C04.register-asked-again", map[string]string{"state": what}, "%s: provider asked for register %s (width %d) although it is %s", where(), k, prov.regWidth[i], what)
-				return
+				if prop == "C04" {
+					return
+				}
+				// C03 run: a request that breaks the C04 discipline does not end the run;
+				// its consequences for the machine state are judged by the C03 comparison below.
+				continue
 			}
 			knownReg[k], suppliedReg[k] = true, true
 			c.Count("provider_register_requests", 1)
@@ -583,7 +588,10 @@ func RunCase(c *mon.Case, prop string) {
 						what = "already supplied"
 					}
 					fail("C04.memory-asked-again", map[string]string{"state": what}, "%s: provider asked for memory [%#x,%#x) although byte %#x is %s", where(), a, a+w, a+j, what)
-					return
+					if prop == "C04" {
+						return
+					}
+					continue // C03 run: see above
 				}
 				knownMem[a+j], suppliedMem[a+j] = true, true
 			}
